@@ -6,6 +6,7 @@
 package vk
 
 import (
+	"sync"
 	"encoding/json"
 	"fmt"
 	"hash/fnv"
@@ -350,4 +351,56 @@ func (c *Ctx) Finish() {
 	if c.Replay || c.Verbose {
 		fmt.Printf("prop=%s evals=%d classes=%d violations=%d\n", c.Prop, c.R.Evaluations, len(c.R.Classes), c.R.NViolations)
 	}
+}
+
+// ---------------------------------------------------------------- concurrent callers
+
+// Call is one closed call into the code under test; it builds its own operands and renders its result.
+type Call struct {
+	Name string
+	Fn   func() string
+}
+
+// ConcurrentSame evaluates every call once sequentially (the reference) and then lets `goroutines` goroutines
+// execute overlapping subsets of the same calls at the same time. It returns the index of a call whose concurrent
+// answer differed from the sequential one, the two answers, or -1. Library functions that share no operands must
+// not influence each other (they are called from query goroutines while blocks execute).
+func ConcurrentSame(calls []Call, goroutines, reps int) (int, string, string) {
+	ref := make([]string, len(calls))
+	run := func(k int) (out string) {
+		defer func() {
+			if r := recover(); r != nil {
+				out = fmt.Sprint("panic: ", r)
+			}
+		}()
+		return calls[k].Fn()
+	}
+	for k := range calls {
+		ref[k] = run(k)
+	}
+	var mu sync.Mutex
+	bad, badGot := -1, ""
+	var wg sync.WaitGroup
+	for g := 0; g < goroutines; g++ {
+		wg.Add(1)
+		go func(g int) {
+			defer wg.Done()
+			for rep := 0; rep < reps; rep++ {
+				for k := (g * 37) % len(calls); k < len(calls); k += 1 + g%3 {
+					if got := run(k); got != ref[k] {
+						mu.Lock()
+						if bad < 0 {
+							bad, badGot = k, got
+						}
+						mu.Unlock()
+					}
+				}
+			}
+		}(g)
+	}
+	wg.Wait()
+	if bad >= 0 {
+		return bad, ref[bad], badGot
+	}
+	return -1, "", ""
 }
